@@ -22,6 +22,21 @@ CHECKS = {
     ),
 }
 
+CHECKS["C07"] = (
+    "abstract interpretation of the allocator over character sets (alphabet fixpoint, symbolic-prefix successor shapes), "
+    "lexer-ATN product automaton inclusion, path rule for persist-before-return",
+    "Proof obligations decided from source: (R1) the least fixed point of characters _get_next_id can emit is inside ZID_CHAR of both "
+    "lexer ATNs, disjoint from the excluded look-alikes, and has the size giving 135,252 suffixes; (R2) on every (prefix, pivot, trailing-max) "
+    "shape the successor keeps the symbolic prefix, moves the pivot to its immediate successor and pads with the minimum, the only length change "
+    "is 2->3 and the only raise is at max^3, hence the chain is strictly increasing and visits every suffix; (R3) every return of get_next is "
+    "preceded by a next_ids.json write of the advanced map and no cached copy can shadow the file; (R4) every YYMMDD#A{2,3} is exactly one ZID token "
+    "in both lexers (automaton inclusion) and is accepted by is_zid (abstract evaluation over character-class strings); (R5) who calls what. "
+    "Exhaustive over the finite domains, which a test that allocates one ID cannot be.",
+    "Uniqueness follows from R2+R3 for a single process (the statement excludes concurrency). Trusts ANTLR longest-match/first-rule lexing, "
+    "strftime printing real dates. Known finding: the last suffix 'zzz' is never handed out.",
+    "DESIGN.md section 4, C07",
+)
+
 NOT_YET = {
 }
 
